@@ -733,27 +733,29 @@ func firstReport(rep string) string {
 }
 
 func raceClass(rep string) string {
+	// the first two distinct source locations of the program under test
+	// (file:line in the instrumented copy), harness and kernel frames skipped
 	var fr []string
 	for _, l := range strings.Split(rep, "\n") {
 		l = strings.TrimSpace(l)
-		if strings.HasPrefix(l, "honnef.co/go/tools/") && !strings.Contains(l, "/internal/verif") {
-			f := l
-			if k := strings.Index(f, "("); k > 0 {
-				f = f[:k]
+		if !strings.HasPrefix(l, "honnef.co/go/tools/") || strings.Contains(l, "/internal/verif") || !strings.Contains(l, ".go:") {
+			continue
+		}
+		f := strings.TrimPrefix(l, "honnef.co/go/tools/")
+		if k := strings.Index(f, " "); k > 0 {
+			f = f[:k]
+		}
+		dup := false
+		for _, x := range fr {
+			if x == f {
+				dup = true
 			}
-			f = strings.TrimPrefix(f, "honnef.co/go/tools/")
-			dup := false
-			for _, x := range fr {
-				if x == f {
-					dup = true
-				}
-			}
-			if !dup {
-				fr = append(fr, f)
-			}
-			if len(fr) == 2 {
-				break
-			}
+		}
+		if !dup {
+			fr = append(fr, f)
+		}
+		if len(fr) == 2 {
+			break
 		}
 	}
 	return "data-race:" + strings.Join(fr, "+")
